@@ -151,4 +151,13 @@ def r19_4(ctx):
     return o
 
 
-RULES = [r19_1, r19_2, r19_3, r19_4]
+def r19_5(ctx):
+    from rules import C10
+    o = C10.r10_1(ctx)
+    o.rule = "R19.5"
+    o.text = ("area, box and containment answers of a composite are computed from its subshapes as they are now: no value "
+              "stored when the composite was built (or lazily cached) survives a change of a subshape (same analysis as R10.1)")
+    return o
+
+
+RULES = [r19_1, r19_2, r19_3, r19_4, r19_5]
